@@ -172,9 +172,11 @@ func (r *readOnlySegmentsGroup) TrimSegments(offset int64) error {
 			continue
 		}
 
+		// The txn file is what makes the segment exist for the recovery: remove it first, so that
+		// a crash in between leaves an orphan index file and not a segment that cannot be read anymore
 		err2 = multierr.Combine(
-			util.RemoveFileIfExists(c.idxPath),
 			util.RemoveFileIfExists(c.txnPath),
+			util.RemoveFileIfExists(c.idxPath),
 		)
 		if err2 != nil {
 			err = multierr.Append(err, err2)
